@@ -28,9 +28,17 @@ class C16(Prop):
                 if impl == model and spec_field(spec, "wf") == "0":
                     return "the returned header is not the documented layout of the returned stub, key and records: %s" % impl[:200]
             return None
+        want = spec_field(spec, "spec")
+        if fam == "rich_rt" and want is not None and spec_field(spec, "hyp") == "0":
+            # the property states the round trip for EVERY stub and record list: outside the
+            # hypotheses of the `_partial` theorem a failure is still a violation (two input
+            # classes are listed in known-findings.txt: checksum 0, records imitating the header)
+            got = "img=%s,key=%s,csum=%s,n=%s,recs=%s,reenc=%s" % tuple(_field(impl, k) for k in ("img", "key", "csum", "n", "recs", "reenc"))
+            if not impl.startswith("ok ") or got != want:
+                return "round trip: library answered %s, the specification says %s" % (impl[:300], want[:300])
+            return None
         if spec_field(spec, "hyp") != "1":
             return None
-        want = spec_field(spec, "spec")
         if fam == "rich_rt":
             got = "img=%s,key=%s,csum=%s,n=%s,recs=%s,reenc=%s" % tuple(_field(impl, k) for k in ("img", "key", "csum", "n", "recs", "reenc"))
             if not impl.startswith("ok ") or got != want:
